@@ -99,10 +99,48 @@ def _wfold(F, B, op, rv, wb, depth):
         return None
 
 
+def _merged_with_small_consts(B, l, t, imax, depth=0):
+    """`let old = if count.compare_exchange(1, 2, ..).is_ok() { 1 } else { count.fetch_add(1, ..) }`: the compared value is, on
+    every path, either the increment's own result or a constant below the limit (the old value of a bounded compare-and-swap
+    increment, judged on its own by the cas-bounded instance)."""
+    if depth > 6:
+        return False
+    ds = B.defs().get(l, [])
+    if len(ds) == 1 and ds[0][0] == "assign" and ds[0][3]["k"] == "use":
+        pl = operand_place(ds[0][3]["op"])
+        return pl is not None and not pl["p"] and _merged_with_small_consts(B, pl["l"], t, imax, depth + 1)
+    if len(ds) < 2:
+        return False
+    seen_inc = False
+    for d in ds:
+        if d[0] == "call":
+            if d[2] is t:
+                seen_inc = True
+                continue
+            return False
+        rv = d[3]
+        if rv["k"] != "use":
+            return False
+        c = operand_const(rv["op"])
+        if c is not None:
+            if c.get("int") is None or not (0 <= c["int"] <= imax):
+                return False
+            continue
+        o = B.origin(rv["op"])
+        if o.get("kind") == "call" and o["term"] is t:
+            seen_inc = True
+            continue
+        return False
+    return seen_inc
+
+
 def run(ctx, rep):
     from . import c12 as _c12
 
     _c12.union_dispatch(ctx, rep)  # a clone made through an ArcUnion increments - and tests - the count word of the Arc it holds, not a word at the other variant's offset
+    from . import c05 as _c05
+
+    _c05.rule_data_offset(ctx, rep)  # ... and a clone made from a value pointer (ArcBorrow, OffsetArc, from_raw) finds the count word at the payload's true offset: the guard must test the word that counts
     for tag, F, E in ctx.each():
         A = balance.analysis(tag, F, E)
         bits = F.pointer_bits
@@ -166,7 +204,7 @@ def run(ctx, rep):
                 if not d:
                     continue
                 o = B.origin_local(d["src"])
-                if o.get("kind") == "call" and o["term"] is t:
+                if (o.get("kind") == "call" and o["term"] is t) or _merged_with_small_consts(B, d["src"], t, imax):
                     guard = (sj, tt, d)
                     break
             if guard is None:
